@@ -77,6 +77,7 @@ def run(idx: ProgramIndex, rep: Report, tier: str):
                         "first argument derives from the variational distribution, second from the prior" if ok else
                         "KL arguments have provenance (%s, %s), expected (q, p): KL(p || q) is a different quantity" % (a, b), {"first": a, "second": b})
     rep.floor("C14-1", "KL sites", n, 4)
+    prior_jitter(idx, rep)
     # C14-2
     vs = idx.find_class("_VariationalStrategy")
     m = 0
@@ -383,3 +384,56 @@ def symmetric_mixing(idx: ProgramIndex, rep: Report):
                     rep.add("C14-8", inst, where, in_mean, "covariance weighted by w w^T with the coefficients that weight the mean" if in_mean else
                             "the covariance is weighted by the outer product of `%s`, which is not what weights the mean" % " ".join(src(wv).split())[:50], {})
     rep.floor("C14-8", "covariance mixing sites", n, 3)
+
+
+# ---- C14-9 ---------------------------------------------------------------------------------------------------------
+def prior_jitter(idx: ProgramIndex, rep: Report):
+    """KL(q(u) || p(u)) and the predictive q(f) have to speak about the same p(u) = N(m_Z, K_ZZ + jitter I).  A strategy whose
+    prior_distribution and whose forward each regularise K_ZZ must add the same jitter in both: otherwise q(u) = p(u) does not give
+    KL = 0 / q(f) = prior, and the KL differs between training mode (where forward stores its own p(u) in the memo) and evaluation mode."""
+    rep.rule("C14-9", "the p(u) of the KL term and the p(u) that forward conditions on regularise K_ZZ with the same jitter")
+    vs = idx.find_class("_VariationalStrategy")
+    from ..symbolic import inline, walk_paths
+    n = 0
+
+    def jitters(fi, recv_test):
+        out = set()
+        for path, seq in walk_paths(fi):
+            for st, env in seq:
+                if not isinstance(st, ast.stmt):
+                    continue
+                for c in (x for x in ast.walk(st) if isinstance(x, ast.Call) and isinstance(x.func, ast.Attribute) and x.func.attr == "add_jitter"):
+                    recv = inline(c.func.value, env)
+                    if recv_test(recv):
+                        a = c.args[0] if c.args else next((k.value for k in c.keywords if k.arg == "jitter_val"), None)
+                        out.add("<add_jitter default>" if a is None else " ".join(src(inline(a, env)).split()))
+        return out
+
+    def is_zz_block(e):
+        # K[..., :m, :m] of the joint covariance (possibly evaluated first)
+        for x in ast.walk(e):
+            if isinstance(x, ast.Subscript) and isinstance(x.slice, ast.Tuple) and len(x.slice.elts) >= 2:
+                a, b = x.slice.elts[-2], x.slice.elts[-1]
+                if isinstance(a, ast.Slice) and isinstance(b, ast.Slice) and a.lower is None and b.lower is None and a.upper is not None and b.upper is not None and src(a.upper) == src(b.upper):
+                    return True
+        return False
+
+    def is_prior_cov(e):
+        t = src(e)
+        return "lazy_covariance_matrix" in t or "covariance_matrix" in t
+
+    for cls in sorted(idx.subclasses(vs, strict=True), key=lambda c: c.qualname):
+        fwd = cls.methods.get("forward")
+        pd = cls.lookup("prior_distribution")
+        if fwd is None or pd is None or not pd.module.name.startswith(idx.package):
+            continue
+        jf = jitters(fwd, is_zz_block)
+        jp = jitters(pd, is_prior_cov)
+        if not jf or not jp:
+            continue  # whitened strategies (identity prior) or interpolation strategies (no K_ZZ in forward)
+        n += 1
+        ok = jf == jp
+        rep.add("C14-9", "%s:%s[prior_distribution vs forward]" % (cls.module.name, cls.qualname), pd.where, ok,
+                "both regularise K_ZZ with %s" % sorted(jf) if ok else
+                "prior_distribution adds %s to K_ZZ but forward adds %s: the KL is taken against another p(u) than the one q(f) is conditioned on (and training mode, which memoises forward's p(u), disagrees with evaluation mode)" % (sorted(jp), sorted(jf)), {"forward": sorted(jf), "prior_distribution": sorted(jp)})
+    rep.floor("C14-9", "strategies regularising K_ZZ in both places", n, 1)
